@@ -1094,8 +1094,13 @@ class Exec(Interp):
             # trait method of a type parameter (generic body): behaviour belongs to the caller's instantiation
             self.generic_callees[c['def']] = fr.fn
             return [ret(st, self.dest_top(st, fr, t))]
-        # unknown callee
-        self.undecided_callees[d or name or '?'] = fr.fn
+        # unknown callee: a crate function without a body is a hole in the analysis (the rule reports exit 2); a std / core function without
+        # a summary is over-approximated (any result of its type, everything reachable through a mutable argument forgotten) and listed --
+        # the functions whose panics matter to the properties (indexing, unwrap, copy_from_slice, rotate, division ...) all have summaries
+        if c.get('local') or not d:
+            self.undecided_callees[d or name or '?'] = fr.fn
+        else:
+            self.foreign_unmodelled[d] = fr.fn
         for a in args:
             self.havoc_mut(st, a)
         val = self.top_of(st, body.locals[t['dest']['l']]['tyj']) if not t['dest']['p'] else self.top_of_tystr(st, t['dest']['ty'])
